@@ -161,3 +161,37 @@ package keygen
 //@   ensures sent(ch) == old(sent(ch)) + 1
 //@   ensures [C03.a-result-without-error-carries-a-verified-commitment-row] isnil(sentf(ch, old(sent(ch)), "unWrappedErr")) ==> (kgRow(round, sentf(ch, old(sent(ch)), "pjVs")) && fresh(sentf(ch, old(sent(ch)), "pjVs")))
 //@   ensures [C20.curve-field-rewritten-with-same-value] fieldheap("crypto.ECPoint", "curve") == old(fieldheap("crypto.ECPoint", "curve"))
+
+//@ define kgChResEc(round, ch) = (isnil(sentf(ch, 0, "unWrappedErr")) ==> kgRow(round, sentf(ch, 0, "pjVs")))
+//@ func (*round3).Start
+//@   deadpoints 6
+//@   note dead: the two `len(culprits) > 0` returns (nothing is appended any more since fix 95e34fe returns at the first bad sum) and the error branch of NewECPoint on the already validated Vc[0]
+//@   props C06 C05 C03
+//@   requires round != nil && round.round2 != nil && round.round2.round1 != nil && round.round2.round1.base != nil && ecKgWF(round)
+//@   requires [threshold-range] round.Parameters.partyCount == kgN(round)
+//@   requires [round-2-complete] forall j in 0..kgN(round) :: (j != kgI(round) ==> (kg2m1slot(round.temp.kgRound2Message1s[j]) && kg2m2slot(round.temp.kgRound2Message2s[j]) && round.save.PaillierPKs[j] != nil))
+//@   requires [own-dealing] len(round.temp.shares) == kgN(round) && round.temp.shares[kgI(round)] != nil && round.temp.shares[kgI(round)].Share != nil && kgRow(round, round.temp.vs) && len(round.temp.ssid) <= 4096 && round.save.LocalPreParams.PaillierSK != nil
+//@   requires [ids-nonzero-modulo-the-order] forall k in 0..kgN(round) :: keyOf(round.Parameters.parties.partyIDs[k]) % secpN != 0
+//@   modifies round.number, round.started, round.ok[*], round.save.Xi, round.save.BigXj[*], round.save.BigXj, round.save.ECDSAPub, round.temp.kgRound3Messages[*], sent(round.out), allfield("crypto.ECPoint", "curve")
+//@   loop 0 invariant round.started && xi != nil && fresh(xi) && Ps == round.Parameters.parties.partyIDs && PIdx == kgI(round) && sent(round.out) == old(sent(round.out))
+//@   loop 1 invariant kgRow(round, round.temp.vs) && arr(Vc) != arr(round.temp.vs) && round.started && fresh(Vc) && len(Vc) == round.Parameters.threshold + 1 && (forall k in 0..$iter :: (validPoint(Vc[k]) && Vc[k].curve == round.Parameters.ec)) && Ps == round.Parameters.parties.partyIDs && PIdx == kgI(round)
+//@   loop 2 invariant round.started && fresh(Vc) && kgRow(round, Vc) && fresh(chs) && len(chs) == kgN(round) && arr(chs) != arr(Vc) && Ps == round.Parameters.parties.partyIDs && PIdx == kgI(round)
+//@   loop 2 invariant (forall k in 0..$iter :: (k != PIdx ==> (chs[k] != nil && fresh(chs[k]) && sent(chs[k]) == 0 && recvd(chs[k]) == 0 && chs[k] != round.out))) && (forall a, b in 0..$iter :: ((a != b && a != PIdx && b != PIdx) ==> chs[a] != chs[b]))
+//@   loop 3 invariant round.started && fresh(Vc) && kgRow(round, Vc) && fresh(chs) && len(chs) == kgN(round) && Ps == round.Parameters.parties.partyIDs && PIdx == kgI(round)
+//@   loop 3 invariant (forall k in 0..kgN(round) :: (k != PIdx ==> (chs[k] != nil && fresh(chs[k]) && recvd(chs[k]) == 0 && chs[k] != round.out))) && (forall a, b in 0..kgN(round) :: ((a != b && a != PIdx && b != PIdx) ==> chs[a] != chs[b]))
+//@   loop 3 invariant forall k in 0..kgN(round) :: (k != PIdx ==> ((k < $iter ==> (sent(chs[k]) == 1 && kgChResEc(round, chs[k]))) && (k >= $iter ==> sent(chs[k]) == 0)))
+//@   loop 4 invariant round.started && fresh(Vc) && kgRow(round, Vc) && fresh(chs) && len(chs) == kgN(round) && fresh(vssResults) && len(vssResults) == kgN(round) && fresh(culprits) && arr(vssResults) != arr(chs) && Ps == round.Parameters.parties.partyIDs && PIdx == kgI(round)
+//@   loop 4 invariant (forall k in 0..kgN(round) :: (k != PIdx ==> (chs[k] != nil && chs[k] != round.out))) && (forall a, b in 0..kgN(round) :: ((a != b && a != PIdx && b != PIdx) ==> chs[a] != chs[b]))
+//@   loop 4 invariant forall k in $iter..kgN(round) :: (k != PIdx ==> (sent(chs[k]) == 1 && recvd(chs[k]) == 0 && kgChResEc(round, chs[k])))
+//@   loop 4 invariant forall k in 0..$iter :: (k != PIdx ==> (isnil(vssResults[k].unWrappedErr) ==> kgRow(round, vssResults[k].pjVs)))
+//@   loop 4 invariant len(culprits) == 0 ==> (forall k in 0..$iter :: (k != PIdx ==> isnil(vssResults[k].unWrappedErr)))
+//@   loop 5 invariant round.started && len(culprits) > 0
+//@   loop 6 invariant round.started && fresh(Vc) && len(Vc) == round.Parameters.threshold + 1 && fresh(vssResults) && len(vssResults) == kgN(round) && fresh(culprits) && Ps == round.Parameters.parties.partyIDs && PIdx == kgI(round)
+//@   loop 6 invariant len(culprits) == 0 ==> kgRow(round, Vc)
+//@   loop 6 invariant forall k in 0..kgN(round) :: (k != PIdx ==> (kgRow(round, vssResults[k].pjVs) && arr(vssResults[k].pjVs) != arr(Vc)))
+//@   loop 7 invariant round.started && 0 <= c && c <= round.Parameters.threshold + 1 && fresh(Vc) && len(Vc) == round.Parameters.threshold + 1 && fresh(vssResults) && len(vssResults) == kgN(round) && fresh(culprits) && Ps == round.Parameters.parties.partyIDs && PIdx == kgI(round) && kgRow(round, PjVs) && arr(PjVs) != arr(Vc)
+//@   loop 7 invariant len(culprits) == 0 ==> kgRow(round, Vc)
+//@   loop 7 invariant forall k in 0..kgN(round) :: (k != PIdx ==> (kgRow(round, vssResults[k].pjVs) && arr(vssResults[k].pjVs) != arr(Vc)))
+//@   loop 8 invariant round.started && 0 <= j && j <= kgN(round) && fresh(Vc) && kgRow(round, Vc) && fresh(culprits) && modQ != nil && !fresh(modQ) && val(modQ) == secpN && bigXj == round.save.BigXj && len(bigXj) == kgN(round) && arr(bigXj) != arr(Vc) && wfIDs(round.Parameters.parties.partyIDs) && (forall k in 0..kgN(round) :: keyOf(round.Parameters.parties.partyIDs[k]) % secpN != 0)
+//@   loop 9 invariant round.started && 0 <= j && j < kgN(round) && 1 <= c && c <= round.Parameters.threshold + 1 && fresh(Vc) && kgRow(round, Vc) && fresh(culprits) && modQ != nil && !fresh(modQ) && val(modQ) == secpN && bigXj == round.save.BigXj && len(bigXj) == kgN(round) && arr(bigXj) != arr(Vc) && wfIDs(round.Parameters.parties.partyIDs) && (forall k in 0..kgN(round) :: keyOf(round.Parameters.parties.partyIDs[k]) % secpN != 0) && kj != nil && val(kj) == keyOf(Pj) && z != nil && val(z) >= 0 && val(z) % secpN != 0 && Pj != nil && Pj == round.Parameters.parties.partyIDs[j]
+//@   loop 9 invariant len(culprits) == 0 ==> (validPoint(BigXj) && BigXj.curve == round.Parameters.ec)
